@@ -7,12 +7,9 @@ EXTENDS MC_Render
 
 CellSeq(x) == <<x.off, x.lp, x.n, x.rp, x.dot>>
 LineSeq(ln) == <<ln.kind, ln.style, ln.w, ln.r, ln.j, [c \in 1..Len(ln.cells) |-> CellSeq(ln.cells[c])]>>
-RowLinesIdx == SelectSeq([k \in 1..Len(lines) |-> k], LAMBDA k : lines[k].kind = "row")
-\* a CSV field holds what the text cell shows, padding aside, list items joined by a comma (one character)
-CsvLens == [q \in 1..Len(RowLinesIdx) |->
-              [c \in 1..Len(tab) |->
-                  LET ln == lines[RowLinesIdx[q]] v == tab[c].vals[ln.r]
-                  IN IF tab[c].t = "set" /\ ~IsNull(v) THEN JoinLen(v.items, 1) ELSE ln.cells[c].n]]
+\* what render_csv must write: the records of the CSV mechanism (its own context: no spacing records, list items joined
+\* by one comma), each the visible length of every field
+CsvLens == LET recs == CsvRecs(tab, opt) IN [q \in 1..Len(recs) |-> recs[q].fields]
 
 Emit == (phase = "done") =>
            PrintT(ToJson([tab |-> tab, opt |-> opt, widths |-> widths,
